@@ -50,6 +50,9 @@ func resolveServer() *httptest.Server {
 			}
 			http.NotFound(w, r)
 		}))
+		// one connection per request: thousands of Manager.Update calls each bring their own transport, and idle
+		// keep-alive connections would pile up until the process runs out of descriptors
+		resolveSrv.Config.SetKeepAlivesEnabled(false)
 		idxBase = resolveSrv.URL
 	})
 	return resolveSrv
